@@ -37,8 +37,8 @@ def run(tier, seed):
     r.add_tlc(res)
     cases = [lc.to_case(c, "L") for c in res["cases"]]
     cases = lc.dedup(cases)
-    for fam in ("calls", "control", "tail", "delim", "store", "wide", "applam", "reads", "param", "restloop"):
-        cases += lc.run_family(vlib, fam, work, r, fresh=(fam not in ("calls", "wide", "applam", "reads", "restloop")))
+    for fam in ("calls", "control", "tail", "delim", "store", "wide", "applam", "reads", "param", "restloop", "idefs"):
+        cases += lc.run_family(vlib, fam, work, r, fresh=(fam not in ("calls", "wide", "applam", "reads", "restloop", "idefs")))
     # ... plus piecewise histories: later units redefine / assign globals that earlier functions use
     res = vlib.run_tlc("Globals", "MC_Globals_asis4.cfg", work, workers=8, timeout=900)
     r.add_tlc(res)
